@@ -314,7 +314,7 @@ func (c *compiler) assignFn(lv *lvalue, rhs cexpr, nonBlocking bool) func(*Sim) 
 		// resolve all targets first (index expressions use pre-assignment values)
 		type tgt struct {
 			word, lo, w, skip int
-			ok               bool
+			ok                bool
 		}
 		var tg [8]tgt
 		tgs := tg[:0]
